@@ -51,6 +51,9 @@ class Prog:
         self.glyph_stmts = []     # extra statements in the glyph table
         self.feature_text = ""
         self.raw_gdl = None
+        self.extra_files = {}     # further source files of the program (include files): name -> text
+        self.pass_split = {}      # (table index, pass index) -> number of rules kept in the main file; the others go to an
+                                  # include file that continues the pass (its lines are numbered from 1 again)
         self.gattr = None
         self.features = None
         self.languages = None
@@ -78,13 +81,22 @@ class Prog:
             out.append("table(%s)" % ttype)
             for pi, rules in enumerate(passes):
                 out.append("pass(%d)" % (pi + 1))
-                for r in rules:
+                keep = self.pass_split.get((self.tables.index((ttype, passes)), pi))
+                inc = None
+                for ri, r in enumerate(rules):
+                    if keep is not None and ri == keep and not any(x.if_open or x.if_close for x in rules):
+                        incname = "rules_%d_%d.gdh" % (self.tables.index((ttype, passes)), pi)
+                        out.append('#include "%s"' % incname)
+                        inc = ["// rules of the pass, continued"]
+                    tgt = inc if inc is not None else out
                     if r.if_open:
-                        out.append(r.if_open)
-                    out.append(rule_text(r))
-                    r.line = sum(x.count("\n") + 1 for x in out)  # 1-based line of this rule in the file
+                        tgt.append(r.if_open)
+                    tgt.append(rule_text(r))
+                    r.line = sum(x.count("\n") + 1 for x in tgt)  # 1-based line of this rule in its file
                     if r.if_close:
-                        out.append("endif;")
+                        tgt.append("endif;")
+                if inc is not None:
+                    self.extra_files[incname] = "\n".join(inc) + "\n"
                 out.append("endpass;")
             out.append("endtable;")
         return "\n".join(out) + "\n"
@@ -359,6 +371,22 @@ def gen_class_program(rng, size="small"):
                 stmts.append("%s -= %s;" % (name, other))
                 trees[name] = {"k": "diff", "a": trees[name], "b": {"k": "ref", "c": other}}
                 referenced.add(other)
+    # late -= : a further subtraction from a class, naming a class that was defined after the earlier operations on it
+    # (only for classes nothing else refers to: a set operation makes a new class object, references made before it
+    # keep the old value)
+    for _late in range(rng.choice([0, 1, 1, 2, 3])):
+        xs = [c for c in order[:-1] if c not in referenced]
+        if not xs:
+            break
+        xd = [c for c in xs if trees[c]["k"] == "diff"]      # preferably one whose last operation was a subtraction too
+        x = rng.choice(xd) if xd and rng.random() < 0.8 else rng.choice(xs)
+        later = [d for d in order[order.index(x) + 1:] if d != x and not depends(d, x)]
+        if not later:
+            continue
+        d = rng.choice(later)
+        stmts.append("%s -= %s;" % (x, d))
+        trees[x] = {"k": "diff", "a": trees[x], "b": {"k": "ref", "c": d}}
+        referenced.add(d)
     # late += on an already referenced class (late binding)
     if rng.random() < 0.3 and referenced:
         c = rng.choice(sorted(referenced))
@@ -456,10 +484,23 @@ def gen_gattr_program(rng, same_line=False, with_defaults_case=True):
     assigns = []
     order = 0
     names = prog.class_order
+    main_lines = lines
+    merged = len(lines)          # position in the merged (preprocessed) text, up to a constant: program order
+    split_files = (not same_line) and rng.random() < 0.4
     for _b in range(rng.randint(1, 5)):
         ov = rng.random() < 0.6
+        if split_files and rng.random() < 0.6:
+            # this block of statements sits in an include file: its own line numbers start again at 1
+            incname = "ga%d.gdh" % len(prog.extra_files)
+            main_lines.append('#include "%s"' % incname)
+            lines = ["// glyph attributes, continued"]
+            prog.extra_files[incname] = lines
+            merged += 2
+        else:
+            lines = main_lines
         lines.append("environment {AttributeOverride = %s};" % ("true" if ov else "false"))
         lines.append("table(glyph)")
+        merged += 2
         for _s in range(rng.randint(1, 5)):
             cls = rng.choice(["c%d" % k for k in range(ncls)])
             parts = []
@@ -482,13 +523,17 @@ def gen_gattr_program(rng, same_line=False, with_defaults_case=True):
                 lines[-1] += " %s {%s};" % (cls, "; ".join("%s = %d" % (nm, v) for nm, _j, v in parts))
             else:
                 lines.append("%s {%s};" % (cls, "; ".join("%s = %d" % (nm, v) for nm, _j, v in parts)))
-            ln = len(lines)
+                merged += 1
+            ln = merged          # the "line" that decides which of two statements is the later one
             for nm, j, v in parts:
                 assigns.append({"order": order, "line": ln, "override": ov, "cls": names.index(cls), "attr": j, "value": v})
                 order += 1
         lines.append("endtable;")
         lines.append("endenvironment;")
+        merged += 2
+    lines = main_lines
     lines.append("table(sub) cS1 > cS2; endtable;")
+    prog.extra_files = {k: "\n".join(v) + "\n" for k, v in prog.extra_files.items()}
     prog.raw_gdl = "\n".join(lines) + "\n"
     prog.gattr = {"marker": 2, "markerBase": 1000, "numAttrs": nattr, "spaceGlyphs": [1], "assigns": assigns}
     prog.class_defs = {nm: glyph_list_text(prog.classes[nm]) for nm in names}
@@ -850,7 +895,7 @@ def gen_opt_program(rng, refs=False, exprs=False):
     return prog
 
 
-def gen_match_program(rng, nglyphs=None, npasses=None, size="small", keyslots=False):
+def gen_match_program(rng, nglyphs=None, npasses=None, size="small", keyslots=False, carets=False):
     """Family 'match': substitution passes with rules of mixed lengths/pre-contexts, insertions, deletions.
     Exercises matching (C02), precedence/pre-context (C06), class maps (C04)."""
     prog = Prog()
@@ -863,21 +908,34 @@ def gen_match_program(rng, nglyphs=None, npasses=None, size="small", keyslots=Fa
     passes = []
     for _p in range(npasses):
         rules = []
+        no_pre = carets and rng.random() < 0.4      # a pass in which no rule has a leading context (no ANY padding at all)
         for _r in range(rng.randint(1, 5 if size == "small" else 12)):
-            r = gen_match_rule(rng, prog)
+            r = gen_match_rule(rng, prog, carets=carets, no_pre=no_pre)
             if keyslots and rng.random() < 0.3:
                 cands = [it for it in r.items if it.mod and it.cls is not None and (it.out is None or it.out[0] == "cls")]
                 if cands:
                     rng.choice(cands).attrs.append(("passKeySlot", "=", "true", {"k": "lit", "v": 1}))
             rules.append(r)
+        if no_pre and rng.random() < 0.7:
+            # the first item of the rule is deleted and ^ stands directly before it: the scan has to come back to the
+            # slot that takes its place
+            names = prog.class_order
+            a, b = rng.choice(names), rng.choice(names)
+            n = len(prog.classes[b])
+            cands = [x for x in names if len(prog.classes[x]) in (1, n) and len(set(prog.classes[x])) == len(prog.classes[x])
+                     and len(set(prog.classes[b])) == n]
+            second = Item(cls=b, mod=True, out=("cls", rng.choice(cands), None) if cands else None)
+            rules.insert(rng.randint(0, len(rules)), Rule([Item(cls=a, mod=True, out=("del",)), second], caret=0))
         passes.append(rules)
     prog.tables.append(("sub", passes))
     return prog
 
 
-def gen_match_rule(rng, prog):
+def gen_match_rule(rng, prog, carets=False, no_pre=False):
     names = prog.class_order
     npre = rng.choice([0, 0, 0, 1, 1, 2, 3])
+    if no_pre:
+        npre = 0
     nmod = rng.choice([1, 1, 1, 2, 2, 3])
     npost = rng.choice([0, 0, 1, 1, 2])
     items = []
@@ -898,8 +956,11 @@ def gen_match_rule(rng, prog):
                 items.append(Item(cls=None, mod=True, out=("cls", rng.choice(single), None)))
                 continue
         cls = rng.choice(names)
-        if kind < 0.25 and nmod > 1 and ninput_mod > 0:
+        if kind < (0.4 if carets else 0.25) and nmod > 1 and (ninput_mod > 0 or (carets and k == 0)):
+            # (with carets: also the FIRST modified item may be the deleted one)
             items.append(Item(cls=cls, mod=True, out=("del",)))
+            if ninput_mod == 0:
+                continue
         elif kind < 0.7:
             # class -> class of the same size, or -> single glyph class
             n = len(prog.classes[cls])
@@ -921,6 +982,12 @@ def gen_match_rule(rng, prog):
     if all(it.cls is None for it in items):
         items.append(Item(cls=rng.choice(names), mod=True, out=None))
     r = Rule(items)
+    if carets and rng.random() < 0.5 and not (lb_pre or lb_post):
+        # ^ anywhere from before the first item to after the last one: where the scan goes on after the rule
+        r.caret = rng.randint(0, len(items))
+        dels = [j for j, it in enumerate(items) if it.out == ("del",)]
+        if dels and rng.random() < 0.6:
+            r.caret = rng.choice(dels) + rng.choice([0, 0, 1])      # directly before (or after) a deleted item
     # fix associations for insertions: associate with the nearest input item
     for i, it in enumerate(items):
         if it.cls is None:
@@ -931,6 +998,14 @@ def gen_match_rule(rng, prog):
     return r
 
 
+def add_pass_splits(rng, prog, prob=0.6):
+    """Continue some passes in include files (rules after the first k)."""
+    for ti, (ttype, passes) in enumerate(prog.tables):
+        for pi, rules in enumerate(passes):
+            if len(rules) >= 2 and rng.random() < prob:
+                prog.pass_split[(ti, pi)] = rng.randint(1, len(rules) - 1)
+
+
 def write_case(prog, workdir, name="p"):
     import os
     import shutil
@@ -939,6 +1014,8 @@ def write_case(prog, workdir, name="p"):
     if not os.path.exists(os.path.join(workdir, "stddef.gdh")):
         shutil.copy(common.STDDEF, workdir)
     text = prog.gdl()
+    for fn, t in prog.extra_files.items():
+        open(os.path.join(workdir, fn), "w").write(t)
     open(os.path.join(workdir, name + ".gdl"), "w").write(text)
     json.dump(prog.ir(), open(os.path.join(workdir, name + ".ir.json"), "w"))
     return text
